@@ -149,7 +149,7 @@ def model_optics(ctx, mo, seed=0):
 
 
 @op('add_tie', mutates=('mo',))
-def add_tie(ctx, mo, idx, new_name=None, bogus=None):
+def add_tie(ctx, mo, idx, new_name=None, bogus=None, name_from=None):
     m = val(ctx, mo)
     names = list(m._parameter_names)
     if not names:
@@ -161,6 +161,12 @@ def add_tie(ctx, mo, idx, new_name=None, bogus=None):
             chosen.append(nm)
     if bogus:
         chosen.append(bogus)
+    if name_from is not None:
+        # the user picks, as the new name, one that another parameter has
+        others = [n for n in names if n not in chosen]
+        if others:
+            new_name = others[name_from % len(others)]
+    ctx.extra['new_name'] = new_name
     ctx.extra['used'] = chosen
     ctx.extra['names_before'] = names
     m.add_tie(chosen, new_name=new_name)
